@@ -42,7 +42,7 @@ type Query struct {
 func (e *Engine) newState(notes map[string]bool) *State {
 	e.d.konst("now0", SInt)
 	e.d.fun("stamp", []Sort{SRef}, SInt)
-	return &State{cells: map[int]Val{}, heap: map[string]string{}, ghost: map[string]Val{}, globals: map[string]Val{},
+	return &State{cells: map[int]Val{}, heap: map[string]string{}, heapNow: map[string]string{}, ghost: map[string]Val{}, globals: map[string]Val{},
 		calls: map[string]string{}, typed: map[string]bool{}, notes: notes, alive: "now0"}
 }
 
